@@ -30,6 +30,10 @@ def H(entry, what="", bounds="", **kw):
     d.update(kw)
     return d
 
+def HS(repeat, entry, what="", bounds="", **kw):
+    """schedule dependent harness: native replays are repeated with timing jitter"""
+    return H(entry, what, bounds, native_repeat=repeat, **kw)
+
 # ------------------------------------------------------------------ C10
 prop("C10",
      bounds="region ids < 2^55, counts in [1,2^32), both flag values, arbitrary previous buffer bytes",
@@ -144,3 +148,36 @@ prop("C14",
      outside="other size combinations and longer histories after the resize; the leaks O1/O2 of DESIGN.md section 4 (pages owned by nobody in the shrink transition) are not part of the statement",
      harnesses=[H("txfile.VerifResize", "data and root intact, no blocking, exact avail delta when growing, extent bound after shrinking, plain reopen reports the new limit", "3 fills x freesome x 4 new limits x prealloc",
                   thorough={"params": {"rounds": 3, "metaarea": 8}})])
+
+# ------------------------------------------------------------------ C09
+LOCK_BOUNDS = ("real lock object: 2 readers + 2 writers with 1 preemption, 2 readers + 1 writer with 2 preemptions (thorough: 2+2 with 2, 3+1 with 2); "
+               "real File: 1 writer (commit / rollback / close / failing commit, optional Flush) against 1-2 readers with 1 preemption (thorough: 1 reader with 2); "
+               "context switches only at sync operations (Mutex/Cond/WaitGroup), at goroutine start and at harness yield points; Cond.Signal wakes a solver-chosen waiter")
+prop("C09", bounds=LOCK_BOUNDS,
+     outside="more threads / preemptions; data races below the granularity of sync operations (the engine interleaves only at sync operations; no happens-before tracking); File.Close racing with a new Begin",
+     harnesses=[
+         HS(200, "txfile.VerifLockProtocol", "mutual exclusion of writers, exclusive vs shared sections, no deadlock / lost wake-up, lock idle at the end", "2R+2W, 1 preemption",
+           quick={"params": {"readers": 2, "writers": 2, "preempt": 1}}, thorough={"params": {"readers": 2, "writers": 2, "preempt": 2}, "max_paths": 400000, "budget": "900s"}),
+         HS(200, "txfile.VerifLockProtocol", "same", "2R+1W, 2 preemptions",
+           quick={"params": {"readers": 2, "writers": 1, "preempt": 2}}, thorough={"params": {"readers": 3, "writers": 1, "preempt": 2}, "max_paths": 400000, "budget": "900s"}),
+         H("txfile.VerifLockBalance", "every ending of a transaction (commit, rollback, close, failing commit; read-only close/commit/rollback) leaves the lock idle; Begin/BeginReadonly/Close return", "2 rounds x 7 endings, fault on write/sync at 2 ordinals"),
+         HS(100, "txfile.VerifFileConcurrent", "writer vs readers on the real File: no deadlock, Close returns", "1 reader, 1 preemption",
+           quick={"params": {"readers": 1, "preempt": 1}}, thorough={"params": {"readers": 1, "preempt": 2}, "max_paths": 400000, "budget": "1200s"}),
+         HS(100, "txfile.VerifFileConcurrent", "same", "2 readers, 1 preemption", quick={"params": {"readers": 2, "preempt": 1}, "max_paths": 100000},
+           thorough={"params": {"readers": 2, "preempt": 1}, "max_paths": 100000}),
+     ])
+
+# ------------------------------------------------------------------ C02
+prop("C02", bounds=LOCK_BOUNDS + "; sequential shadow lemma: reader open across <= 2 (thorough 3) symbolic writer operations (incl. Flush, Page.Flush, CheckpointWAL, free) and rollback/close",
+     outside="more threads / preemptions; Go memory model below sync granularity",
+     harnesses=[
+         H("txfile.VerifShadow", "a reader's view is unchanged by anything a concurrent write transaction does up to rollback; a reader begun meanwhile sees the committed state", "nops=2, variants plain/WAL",
+           quick={"params": {"nops": 2, "pre": 1}}, thorough={"params": {"nops": 3, "pre": 1}, "max_paths": 300000, "budget": "1200s"}),
+         H("txfile.VerifShadow", "same with InitMetaArea=4, WALLimit=1", "variant 4", quick={"params": {"nops": 2, "pre": 1, "variant": 4}}, thorough={"params": {"nops": 3, "pre": 1, "variant": 4}, "max_paths": 300000, "budget": "1200s"}),
+         HS(100, "txfile.VerifFileConcurrent", "snapshot isolation under a symbolic scheduler: a reader sees a commit completed before it began (or the one in progress), never uncommitted data; its view is stable", "1 reader, 1 preemption",
+           quick={"params": {"readers": 1, "preempt": 1}}, thorough={"params": {"readers": 1, "preempt": 2}, "max_paths": 400000, "budget": "1200s"}),
+         HS(100, "txfile.VerifFileConcurrent", "same", "2 readers, 1 preemption", quick={"params": {"readers": 2, "preempt": 1}, "max_paths": 100000},
+           thorough={"params": {"readers": 2, "preempt": 1}, "max_paths": 100000}),
+         HS(200, "txfile.VerifLockProtocol", "exclusive section (header switch) excludes shared sections", "2R+2W, 1 preemption",
+           quick={"params": {"readers": 2, "writers": 2, "preempt": 1}}, thorough={"params": {"readers": 2, "writers": 2, "preempt": 2}, "max_paths": 400000, "budget": "900s"}),
+     ])
